@@ -173,9 +173,15 @@ func runGCCase(rep *vevid.Report, f *vevid.Flags, c gcCase, no int) {
 // to continue) in the middle of a log: n appends, reset to s (backwards into an earlier index / data page, to the
 // current position, or forwards), m more appends. Every message appended after the reset reads back under its own
 // sequence s+1.. with its own bytes, before and after close / reopen; with a group, its positions follow the reset.
-func runResetCase(rep *vevid.Report, f *vevid.Flags, profile string, n int, s int64, m int, withGroup bool, no int) {
+func runResetCase(rep *vevid.Report, f *vevid.Flags, profile string, n int, s int64, m int, groupMode int, no int) {
+	// groupMode 0: no group; 1: a group that has not consumed; 2 / 3: the group consumed everything, acknowledged
+	// everything / the first half, and FanOutQueue.Sync moved the queue's acknowledged position before the reset
+	withGroup := groupMode > 0
 	scen := fmt.Sprintf("reset/%s", profile)
 	cfg := fmt.Sprintf("profile=%s appends=%d reset-to=%d then-appends=%d group=%v", profile, n, s, m, withGroup)
+	if groupMode >= 2 {
+		cfg += fmt.Sprintf(" acked-before-reset=%s", map[int]string{2: "all", 3: "half"}[groupMode])
+	}
 	viol := func(clause, site, detail string) {
 		rep.Violate(vevid.Violation{Clause: clause, Scenario: scen, Site: site, Detail: cfg + ": " + detail, Replay: replay{Part: "gcscan", Config: cfg}})
 	}
@@ -209,10 +215,27 @@ func runResetCase(rep *vevid.Report, f *vevid.Flags, profile string, n int, s in
 			return
 		}
 	}
+	if groupMode >= 2 {
+		for i := 0; i < n; i++ {
+			g.Consume()
+		}
+		ackTo := int64(n - 1)
+		if groupMode == 3 {
+			ackTo = int64(n-1) / 2
+		}
+		g.Ack(ackTo)
+		fq.Sync()
+	}
+	ackWithin := func(q queue.FanOutQueue, when string) {
+		if ack, app := q.Queue().AcknowledgedSeq(), q.Queue().AppendedSeq(); ack > app {
+			viol("queue-ack-beyond-appended", "FanOutQueue.SetAppendedSeq", fmt.Sprintf("%s: queue ack %d is beyond appended %d", when, ack, app))
+		}
+	}
 	fq.SetAppendedSeq(s)
 	if app := fq.Queue().AppendedSeq(); app != s {
 		viol("reset-position", "FanOutQueue.SetAppendedSeq", fmt.Sprintf("appended %d after the reset", app))
 	}
+	ackWithin(fq, "after the reset")
 	after := func(i int) []byte { return gcPayload(profile, 100+i) }
 	for i := 0; i < m; i++ {
 		if err := fq.Queue().Put(after(i)); err != nil {
@@ -241,6 +264,7 @@ func runResetCase(rep *vevid.Report, f *vevid.Flags, profile string, n int, s in
 		}
 	}
 	check(fq, "after the appends")
+	ackWithin(fq, "after the appends")
 	if withGroup {
 		for i := 0; i < m; i++ {
 			if got := g.Consume(); got != s+1+int64(i) {
@@ -258,7 +282,17 @@ func runResetCase(rep *vevid.Report, f *vevid.Flags, profile string, n int, s in
 	}
 	defer fq2.Close()
 	check(fq2, "after reopen")
-	rep.Outcome(fmt.Sprintf("reset %s n=%d to=%d m=%d", profile, n, s, m))
+	ackWithin(fq2, "after reopen")
+	if withGroup {
+		// the group's positions survive the reopen: it consumed the m messages appended after the reset and
+		// acknowledged none of them
+		if g2, err := fq2.GetOrCreateConsumerGroup("a"); err == nil {
+			if c, a := g2.ConsumedSeq(), g2.AcknowledgedSeq(); c != s+int64(m) || a > c || a > s {
+				viol("group-positions-after-reopen", "FanOutQueue.SetAppendedSeq", fmt.Sprintf("after reopen the group has consumed %d acknowledged %d, expected consumed %d acknowledged <= %d", c, a, s+int64(m), s))
+			}
+		}
+	}
+	rep.Outcome(fmt.Sprintf("reset %s n=%d to=%d m=%d g=%d", profile, n, s, m, groupMode))
 }
 
 func head(b []byte) []byte {
@@ -331,7 +365,7 @@ func runGCScan(f *vevid.Flags, rep *vevid.Report) {
 		for _, n := range []int{1, 5, 6, 9, 10} {
 			for s := int64(-1); s <= int64(n)+5; s++ {
 				for _, m := range []int{1, 2, 5} {
-					for _, wg := range []bool{false, true} {
+					for wg := 0; wg < 4; wg++ {
 						idx++
 						if !f.Mine(idx) {
 							continue
